@@ -86,6 +86,11 @@ def nested(ctx, rnd):
             # (narrowing a 16-bit parameter times a to 8 bits has one cell per wrap: keep the target as wide as the parameter)
             N = ("int8_t" if rnd.random() < 0.5 else "uint8_t") if "8" in T else ("int16_t" if rnd.random() < 0.5 else "uint16_t")
             funcs.append((k, T, "w", 'extern "C" bool f_%d(%s x) { return static_cast<%s>(x * %d) %s %d; }' % (k, T, N, a, op, c)))
+    # right shifts by constants (kind "n": value forms; negative operands of >> are outside the forms)
+    for T in ("uint16_t", "uint8_t"):
+        for (a, sh, c) in [(1, 3, 0), (5, 2, 7), (3, 1, 1), (1, 7, 0)]:
+            k = len(funcs)
+            funcs.append((k, T, "n", 'extern "C" int f_%d(%s x) { return ((x * %d + %d) >> %d) * 3; }' % (k, T, a, c, sh)))
     # a remainder narrowed before it is tested (kind "r"): where the abstract value is Bad
     # ('remainder-narrowed') its witness must really be a value for which the function says false
     # although the remainder is not zero; where it is a boolean it must agree with every value
